@@ -197,7 +197,7 @@ class Result(object):
 class DetSched(object):
   def __init__(self, chooser=None, trace=None, windows=None, base=0, t0=1000.0,
                watchdog_s=60.0, max_switch_points=400000, on_abort=None, decide_on="all",
-               observer=None, max_vtime_span=120.0):
+               observer=None, max_vtime_span=120.0, opcode=()):
     """trace: {function|code: None (every line) | iterable of line numbers}.
     windows: {function|code: iterable of line numbers} -- lines flagged `window=True` in decisions.
     decide_on: "all" -> every traced line is a decision point; "windows" -> only window lines
@@ -206,6 +206,8 @@ class DetSched(object):
     decision), for invariants that must hold at every switch point; it must not block.
     max_vtime_span: if virtual time would pass t0 + span the run is stopped and `Result.stalled` lists the
     threads blocked without a deadline (some thread waits for ever while only pollers keep waking up).
+    opcode: functions (a subset of `trace`) whose switch points are every bytecode INSTRUCTION instead of
+    every line (site "qualname:line+offset"; an instruction is a window when its line is).
     on_abort(): called once when unwinding starts (deadlock / stall / budget), e.g. to set a quit flag."""
     self.chooser = chooser or Chooser()
     self.base = base
@@ -227,6 +229,14 @@ class DetSched(object):
         self._trace[c] = frozenset(lines)
       elif self._trace[c] is not None:
         self._trace[c] = self._trace[c] | frozenset(lines)
+    self._opcode = {}
+    for f in opcode:
+      c = code_of(f)
+      self._trace.setdefault(c, None)
+      self._opcode[c] = {}
+      for start, end, ln in c.co_lines():
+        for off in range(start, end, 2):
+          self._opcode[c][off] = ln
     self._recs = []
     self._by_ident = {}
     self.current = None
@@ -297,8 +307,10 @@ class DetSched(object):
         raise HarnessError("detsched: sys.monitoring tool id %d is taken: %s" % (_TOOL, e))
       _tool_claimed = True
     _mon.register_callback(_TOOL, _mon.events.LINE, self._on_line)
+    if self._opcode:
+      _mon.register_callback(_TOOL, _mon.events.INSTRUCTION, self._on_instr)
     for c in self._trace:
-      _mon.set_local_events(_TOOL, c, _mon.events.LINE)
+      _mon.set_local_events(_TOOL, c, _mon.events.INSTRUCTION if c in self._opcode else _mon.events.LINE)
     _active = self
     holder = {}
 
@@ -331,6 +343,8 @@ class DetSched(object):
       for c in self._trace:
         _mon.set_local_events(_TOOL, c, 0)
       _mon.register_callback(_TOOL, _mon.events.LINE, None)
+      if self._opcode:
+        _mon.register_callback(_TOOL, _mon.events.INSTRUCTION, None)
       _active = None
     if _rt.active_count() > baseline:
       raise HarnessError("detsched: %d thread(s) leaked" % (_rt.active_count() - baseline))
@@ -415,6 +429,22 @@ class DetSched(object):
     w = self._windows.get(code)
     self._line_point(me, code.co_qualname, line, w is not None and line in w)
 
+  def _on_instr(self, code, offset):
+    o2l = self._opcode.get(code)
+    if o2l is None:
+      return
+    me = self._by_ident.get(_rt.get_ident())
+    if me is None or self.current is not me:
+      return
+    line = o2l.get(offset)
+    if line is None:
+      return
+    lines = self._trace.get(code)
+    if lines is not None and line not in lines:
+      return
+    w = self._windows.get(code)
+    self._line_point(me, code.co_qualname, line, w is not None and line in w, offset)
+
   def switch_point(self, site, window=False):
     """A voluntary switch point in harness code (behaves like a traced line event)."""
     me = self._by_ident.get(_rt.get_ident())
@@ -422,7 +452,7 @@ class DetSched(object):
       raise HarnessError("detsched.switch_point from a thread that does not hold the baton")
     self._line_point(me, site, 0, window)
 
-  def _line_point(self, me, where, line, window):
+  def _line_point(self, me, where, line, window, offset=None):
     self.res.line_events += 1
     if self.aborting:
       self._abort_lines += 1
@@ -430,6 +460,8 @@ class DetSched(object):
         raise DetSchedAbort("unwinding: thread %s keeps running" % me.name)
       return
     site = "%s:%d" % (where, line) if line else where
+    if offset is not None:
+      site += "+%d" % offset
     if self.observer is not None:
       self.observer(me.name, site)
     if self.decide_on == "windows" and not window:
